@@ -138,7 +138,13 @@ class PopGen(object):
         if a.optional and self.rng.random() < .35:
             self.tags.add('optional $')
             return ('null',)
-        return self.value(a.type, self_id)
+        had = 'unfillable' in self.tags
+        v = self.value(a.type, self_id)
+        if a.optional and not had and 'unfillable' in self.tags:
+            # no conforming value exists in this population (e.g. no instance of the referenced entity): `$` is conforming here
+            self.tags.discard('unfillable')
+            return ('null',)
+        return v
 
     def ref_to(self, ename, self_id, from_select=False):
         cands = [i for i, m in self.member.items() if ename in m]
